@@ -120,9 +120,9 @@ pub fn run(input: &str, out: &mut dyn Write, ar_empty: bool) -> (u64, u64) {
         let mut pos = 0;
         let forest = parse_forest(&toks, &mut pos);
         let mut w = VW::new();
-        let aq: Vec<Entity<Aq>> = (0..2).map(|_| w.create::<Aq>((Ta::new(0), Tb::new(0), Tz::new(0)))).collect();
+        let aq: Vec<Entity<Aq>> = (0..2).map(|_| w.create::<Aq>(<Aq as AOps>::make(&[]))).collect();
         let ar: Vec<Entity<Ar>> = if ar_empty { Vec::new() } else {
-            (0..2).map(|_| w.create::<Ar>((Tb::new(0), Th::new(0), Tal::new(0), Tw::new(0)))).collect()
+            (0..2).map(|_| w.create::<Ar>(<Ar as AOps>::make(&[]))).collect()
         };
         let cx = Ctx { w: &w, aq, ar, log: RefCell::new(Vec::new()), counter: Cell::new(0) };
         let r = guard(|| run_nodes(&forest, &cx));
